@@ -72,6 +72,10 @@ pub fn format_commit_line_with_osc8_commit_hyperlink<'a>(
         }
     }
 
+    if line.contains("\x1b]8;") {
+        // The line carries hyperlinks already: a hash found in it may be part of their URLs.
+        return Cow::from(line);
+    }
     if let Some(commit_link_format) = &config.hyperlinks_commit_link_format {
         let mut matches = COMMIT_HASH_REGEX.find_iter(line);
         if let Some(first_match) = matches.next() {
